@@ -462,6 +462,8 @@ func Main(args []string) error {
 		return Gen(os.Stdout, seed, num(1, 100), num(2, 6))
 	case "race":
 		return Race(seed, num(1, 50))
+	case "diffpage":
+		return DiffPage(os.Stdin, os.Stdout, seed, num(1, 3))
 	}
 	return fmt.Errorf("matching: unknown subcommand %q", args[0])
 }
